@@ -840,11 +840,14 @@ parse_btt(vbi_decoder *vbi, uint8_t *raw, int packet)
 		break;
 	}
 
-	case 21 ... 23:
+	case 21 ... 22:
 	    {
 		struct ttx_page_link *pl;
 		int i;
 
+		/* cn->btt_link[] has room for the 2 * 5 links of packet
+		   21 and 22, the links of packet 23 were stored
+		   past its end. */
 		pl = vbi->cn->btt_link + (packet - 21) * 5;
 
 		vbi->cn->have_top = TRUE;
